@@ -17,7 +17,7 @@ import engine as E
 import pfam, sqlgen
 import anfam
 
-RISKY = ["with-clause", "anonymous-aggregate", "duplicate-output-name", "scalar-subquery", "aliased-wildcard", "union-unqualified", "derived-alias-reused",
+RISKY = ["anonymous-aggregate", "duplicate-output-name", "scalar-subquery", "aliased-wildcard", "union-unqualified", "derived-alias-reused",
          "unknown-qualified-column", "unknown-qualifier", "dialect-variable", "derived-without-alias", "count-star-join"]
 
 
@@ -27,6 +27,8 @@ class LGen:
         self.used_risky = False
         self.tags = set()
         self.tables = []
+        self.withs = []          # WITH tables visible at the point of generation: sources like any other, named by the WITH name
+        self.shadow = None       # a catalogue table that the query never reads: its name may be taken as a derived table's alias
 
     def p(self, x): return self.r.chance(x)
     def ch(self, xs): return self.r.choice(xs)
@@ -52,8 +54,13 @@ class LGen:
                 c = self.ch(shared) if self.p(0.25) else "%s%d_%d" % (self.ch(["a", "b", "col"]), i, j)
                 if c not in cols: cols.append(c)
             self.tables.append({"schema": schema, "name": name, "cols": cols})
-        return "; ".join("CREATE TABLE %s (%s)" % ((t["schema"] + "." if t["schema"] else "") + t["name"],
+        text = "; ".join("CREATE TABLE %s (%s)" % ((t["schema"] + "." if t["schema"] else "") + t["name"],
                                                      ", ".join("%s %s" % (c, self.ch(["int", "varchar(20)", "bigint(20)"])) for c in t["cols"])) for t in self.tables)
+        plain = [t for t in self.tables if t["schema"] is None]
+        if len(self.tables) >= 3 and plain and self.p(0.5):
+            self.shadow = self.ch(plain)
+            self.tables = [t for t in self.tables if t is not self.shadow]
+        return text
 
     # -- sources in scope: {"ref": name to qualify with, "cols": [(name, frozenset of base columns)], "base": bool, "aliased": bool} ----------
     def base_source(self, force_alias=False, no_alias=False):
@@ -63,17 +70,32 @@ class LGen:
         src = {"ref": al or t["name"], "cols": [(c, frozenset([(t["schema"], t["name"], c)])) for c in t["cols"]], "base": True, "aliased": al is not None, "table": t}
         return text, src
 
-    def source(self, d, taken, no_alias=False):
+    def derived(self, d, alias=None, force_with=False):
+        """a derived table (None if the nested query cannot serve as one)"""
+        text, out = self.query(d + 1, force_with=force_with)
+        if out == "ANALYZER":
+            return None
+        cols = [(n, s) for n, s in out if n is not None]
+        if len(cols) == len(out) and len(set(n for n, _ in cols)) == len(cols):
+            if alias is None and self.want("derived-without-alias", 0.7):
+                self.tags.add("risky:derived-without-alias")
+                return "(" + text + ")", {"ref": None, "cols": cols, "base": False, "aliased": False}
+            al = alias or self.fresh("q")
+            self.tags.add("derived-table")
+            return "(" + text + ")" + self.ch([" AS ", " "]) + al, {"ref": al, "cols": cols, "base": False, "aliased": True}
+        return None
+
+    def source(self, d, taken, no_alias=False, allow_with=True):
+        if allow_with and self.withs and not no_alias and self.p(0.4):
+            w = self.ch(self.withs)
+            al = self.fresh("x") if self.p(0.3) else None
+            if (al or w["ref"]) not in taken:
+                self.tags.add("with:used")
+                return w["ref"] + ((self.ch([" AS ", " "]) + al) if al else ""), {"ref": al or w["ref"], "cols": w["cols"], "base": True, "aliased": al is not None}
         if d < self.maxdepth and self.p(0.3) and not no_alias:
-            text, out = self.query(d + 1)
-            cols = [(n, s) for n, s in out if n is not None]
-            if len(cols) == len(out) and len(set(n for n, _ in cols)) == len(cols):
-                if self.want("derived-without-alias", 0.7):
-                    self.tags.add("risky:derived-without-alias")
-                    return "(" + text + ")", {"ref": None, "cols": cols, "base": False, "aliased": False}
-                al = self.fresh("q")
-                self.tags.add("derived-table")
-                return "(" + text + ")" + self.ch([" AS ", " "]) + al, {"ref": al, "cols": cols, "base": False, "aliased": True}
+            r_ = self.derived(d)
+            if r_ is not None:
+                return r_
         for _ in range(8):
             text, src = self.base_source(no_alias=no_alias)
             if src["ref"] not in taken:
@@ -127,9 +149,21 @@ class LGen:
         scope, parts = [], []
         n_src = self.ch([1, 1, 1, 2, 3]) if not plain_from else self.ch([1, 2])
         text_from = ""
+        # side-by-side derived tables, a LATER one with its own WITH clause (the store of derived-table lineages is shared by all levels);
+        # the earlier sibling's alias is, in half of the cases, the name of a catalogue table the query never reads
+        siblings = self.risky is None and not plain_from and d < self.maxdepth and self.p(0.12)
+        if siblings: n_src = self.ch([2, 2, 3])
         n_comma = 1 + self.r.below(n_src)          # the FROM list first, then the JOINs (a comma after a JOIN is not accepted by the parser)
         for i in range(n_src):
-            t, s = self.source(d, [x["ref"] for x in scope], no_alias=plain_from and self.p(0.5))
+            forced = None
+            if siblings and i == 0:
+                al = self.shadow["name"] if (self.shadow is not None and self.p(0.6) and "shadowed" not in self.tags) else None
+                forced = self.derived(d, alias=al or self.fresh("q"))
+                if forced is not None and al: self.tags.add("shadowed")
+            elif siblings and i == n_src - 1:
+                forced = self.derived(d, alias=self.fresh("q"), force_with=True)
+                if forced is not None: self.tags.add("sibling-with")
+            t, s = forced if forced is not None else self.source(d, [x["ref"] for x in scope], no_alias=plain_from and self.p(0.5), allow_with=not plain_from)
             scope.append(s)
             if i == 0: text_from = t
             elif i < n_comma: text_from += ", " + t
@@ -142,6 +176,9 @@ class LGen:
         if len(scope) > 1: self.tags.add("join")
         out, items = [], []
         n_items = arity if arity is not None else 1 + self.r.below(4)
+        if siblings and scope[0]["ref"] is not None and scope[0]["cols"]:
+            c0 = self.ch(scope[0]["cols"]); nm = self.fresh("o")         # the earlier sibling is read after the later one was analysed
+            items.append("%s.%s AS %s" % (scope[0]["ref"], c0[0], nm)); out.append((nm, c0[1]))
         while len(out) < n_items:
             x = self.r.below(100)
             room = n_items - len(out)
@@ -210,20 +247,35 @@ class LGen:
         text = "SELECT " + ", ".join(items) + " FROM " + text_from
         if self.p(0.3) and all(x["ref"] is not None for x in scope):
             rs = self.refs(scope, True)
-            if rs: text += " WHERE %s > 0" % self.ch(rs)[0]
+            if rs:
+                text += " WHERE %s > 0" % self.ch(rs)[0]
+                if self.risky is None and self.p(0.25):
+                    t = self.ch(self.tables); v = self.fresh("v")          # a WITH clause inside a predicate sub-query: not part of the flow
+                    text += " AND %s %s (WITH %s AS (SELECT %s FROM %s) SELECT %s FROM %s)" % (
+                        self.ch(rs)[0], self.ch(["IN", "NOT IN"]), v, t["cols"][0], (t["schema"] + "." if t["schema"] else "") + t["name"], t["cols"][0], v)
+                    self.tags.add("with:in-predicate-subquery")
         return text, out, scope
 
-    def query(self, d=0):
+    def query(self, d=0, force_with=False):
         """(text, outputs) — outputs = [(name, sources)] or "ANALYZER" """
-        if d == 0 and self.want("with-clause", 0.9):
-            sub = LGen(self.r, None, 0); sub.tables = self.tables; sub.k = self.k + 700
-            t, o, _ = sub.select(1, plain_from=True)
-            w = self.fresh("w")
-            self.tags.add("risky:with-clause")
-            cols = [(n, s) for n, s in o if n is not None]
-            if o != "ANALYZER" and len(cols) == len(o) and cols:
-                pick = self.ch(cols)
-                return "WITH %s AS (%s) SELECT %s FROM %s" % (w, t, pick[0], w), [(pick[0], pick[1])]
+        # WITH tables: analysed first, visible to the statement they are attached to and to everything nested in it
+        pushed, parts = 0, []
+        if self.risky is None and d <= self.maxdepth and (force_with or self.p(0.15)):
+            for _ in range(self.ch([1, 1, 2])):
+                bt, bo, _ = self.select(d + 1)          # the body is a SELECT (it cannot itself start with WITH); it may contain derived tables with WITH
+                if bo == "ANALYZER": continue
+                cols = [(n, s_) for n, s_ in bo if n is not None]
+                if cols and len(cols) == len(bo) and len(set(n for n, _ in cols)) == len(cols):
+                    w = self.fresh("w")
+                    parts.append("%s AS (%s)" % (w, bt)); self.withs.append({"ref": w, "cols": cols}); pushed += 1
+            if parts: self.tags.add("with" if d == 0 else "with:nested")
+        text, out = self.query_body(d)
+        if pushed: del self.withs[len(self.withs) - pushed:]
+        prefix = "WITH " + ", ".join(parts) + " " if parts else ""
+        if d == 0: self.top_prefix = prefix
+        return prefix + text, out
+
+    def query_body(self, d):
         if d <= 1 and self.p(0.2) or (self.risky in ("union-unqualified",) and d == 0):
             # UNION: the branches are analysed in ONE scope by the implementation, so the clean form qualifies every reference
             unq = self.want("union-unqualified", 1.0)
@@ -254,20 +306,22 @@ class LGen:
     def statement(self):
         """(text, kind, expectation): kind = "select" | "insert" """
         text, out = self.query(0)
+        pre = getattr(self, "top_prefix", "")
+        body = text[len(pre):]          # the WITH clause of an INSERT is written before INSERT
         if self.p(0.25) and out != "ANALYZER" and self.risky is None:
             tgt = self.ch(self.tables)
             full = (tgt["schema"] + "." if tgt["schema"] else "") + tgt["name"]
             x = self.r.below(100)
             self.tags.add("insert")
             if x < 35 and len(tgt["cols"]) == len(out):
-                return "INSERT INTO %s %s" % (full, text), "insert", [((tgt["schema"], tgt["name"], c), s) for c, (_, s) in zip(tgt["cols"], out)]
+                return pre + "INSERT INTO %s %s" % (full, body), "insert", [((tgt["schema"], tgt["name"], c), s) for c, (_, s) in zip(tgt["cols"], out)]
             if x < 70 and len(tgt["cols"]) >= len(out):
                 cols = self.r.shuffle(tgt["cols"])[:len(out)]
                 self.tags.add("insert:column-list")
-                return "INSERT INTO %s (%s) %s" % (full, ", ".join(cols), text), "insert", [((tgt["schema"], tgt["name"], c), s) for c, (_, s) in zip(cols, out)]
+                return pre + "INSERT INTO %s (%s) %s" % (full, ", ".join(cols), body), "insert", [((tgt["schema"], tgt["name"], c), s) for c, (_, s) in zip(cols, out)]
             if len(tgt["cols"]) != len(out):
                 self.tags.add("insert:arity-mismatch")
-                return "INSERT INTO %s %s" % (full, text), "insert", "ANALYZER"
+                return pre + "INSERT INTO %s %s" % (full, body), "insert", "ANALYZER"
         return text, "select", out
 
 
@@ -377,7 +431,7 @@ def general_case(rng):
 
 def run(ctx):
     n_clean = 3000 if ctx.quick else 50000
-    n_risky = 120 if ctx.quick else 3000
+    n_risky = 100 if ctx.quick else 3000
     n_gen = 2500 if ctx.quick else 40000
     ctx.cov["rule"] = ("(1) correspondence of get_select_table_lineage / get_insert_table_lineage → all_columns() and of the getter's request log between the Lean model and the real "
                        "code (through a CreateTableStatementGetter subclass serving the catalogue from a dict) on the dedicated (catalogue, query) pairs, on one variant per risky "
